@@ -21,6 +21,7 @@ mod c08;
 mod c09;
 mod c10;
 mod c11;
+mod c12;
 mod c13;
 mod c14;
 mod c17;
@@ -90,6 +91,11 @@ const PROPS: &[PropDef] = &[PropDef {
     level: "exploration",
     run: c11::run,
     replay: c11::replay,
+}, PropDef {
+    id: "C12",
+    level: "exploration",
+    run: c12::run,
+    replay: c12::replay,
 }, PropDef {
     id: "C13",
     level: "exploration",
